@@ -1,0 +1,352 @@
+//! Verification hooks (cargo feature `verif`, off by default).
+//!
+//! Everything in this module is additive and inert unless an explorer installs a choice script or
+//! a tick budget on the current thread: with nothing installed the order-controlled maps iterate in
+//! ascending key order (one of the orders a std map may produce), the RNG shim forwards to `rand`
+//! and `tick` only counts.
+//!
+//! * *choice script*: a thread-local list of answers to the choice points met during one execution
+//!   (map traversal orders, random draws). Positions beyond the end of the script answer 0, the
+//!   default. Every choice point met is logged as `(arity, answer)` so an explorer can enumerate the
+//!   alternatives (deviation-bounded search) and replay an execution exactly.
+//! * *tick budget*: loops that could run forever call `tick()`, which panics with
+//!   `VERIF_BUDGET_EXCEEDED` once the installed budget is used up, turning non-termination into a
+//!   deterministic, reproducible observation.
+use std::cell::RefCell;
+use std::collections::hash_map::RandomState;
+use std::hash::Hash;
+use std::ops::{Deref, DerefMut, Index};
+
+#[derive(Default, Clone, Debug)]
+struct Script {
+    choices: Vec<usize>,
+    pos: usize,
+    log: Vec<(usize, usize)>,
+    active: bool,
+}
+
+thread_local! {
+    static SCRIPT: RefCell<Script> = RefCell::new(Script::default());
+    static TICKS: RefCell<(u64, u64)> = const { RefCell::new((0, u64::MAX)) };
+}
+
+pub const BUDGET_PANIC: &str = "VERIF_BUDGET_EXCEEDED";
+
+/// Installs a choice script on this thread and activates scripted answers
+pub fn install(choices: Vec<usize>) {
+    SCRIPT.with(|s| {
+        *s.borrow_mut() = Script {
+            choices,
+            pos: 0,
+            log: Vec::new(),
+            active: true,
+        }
+    });
+}
+
+/// Deactivates the script and returns the `(arity, answer)` log of every choice point met
+pub fn take_log() -> Vec<(usize, usize)> {
+    SCRIPT.with(|s| {
+        let mut s = s.borrow_mut();
+        s.active = false;
+        std::mem::take(&mut s.log)
+    })
+}
+
+pub fn script_active() -> bool {
+    SCRIPT.with(|s| s.borrow().active)
+}
+
+/// A choice point with `arity` alternatives; returns the scripted answer in `0..arity` (0 when no
+/// script is active or the script has run out)
+pub fn choose(arity: usize) -> usize {
+    SCRIPT.with(|s| {
+        let mut s = s.borrow_mut();
+        if !s.active || arity <= 1 {
+            return 0;
+        }
+        let k = if s.pos < s.choices.len() {
+            s.choices[s.pos]
+        } else {
+            0
+        };
+        s.pos += 1;
+        if k >= arity {
+            panic!("VERIF_CHOICE_OUT_OF_RANGE {} >= {}", k, arity);
+        }
+        s.log.push((arity, k));
+        k
+    })
+}
+
+/// Resets the tick counter and installs a budget (`u64::MAX` = unlimited)
+pub fn set_budget(budget: u64) {
+    TICKS.with(|t| *t.borrow_mut() = (0, budget));
+}
+
+/// Number of ticks counted since the last `set_budget`
+pub fn ticks() -> u64 {
+    TICKS.with(|t| t.borrow().0)
+}
+
+pub fn tick() {
+    TICKS.with(|t| {
+        let mut t = t.borrow_mut();
+        t.0 += 1;
+        if t.0 > t.1 {
+            // Disarm so that unwinding code which ticks again does not double panic
+            t.1 = u64::MAX;
+            panic!("{}", BUDGET_PANIC);
+        }
+    });
+}
+
+fn factorial(n: usize) -> usize {
+    (1..=n).product()
+}
+
+/// Orders an ascending-sorted vec according to the explorer's choice: every permutation when
+/// `n <= 4`, rotations and their reversals beyond that
+fn permute<T>(mut sorted: Vec<T>) -> Vec<T> {
+    let n = sorted.len();
+    if n <= 1 {
+        return sorted;
+    }
+    if n <= 4 {
+        let mut k = choose(factorial(n));
+        let mut out = Vec::with_capacity(n);
+        let mut f = factorial(n - 1);
+        let mut m = n;
+        while m > 0 {
+            let idx = k / f;
+            k %= f;
+            out.push(sorted.remove(idx));
+            m -= 1;
+            if m > 0 {
+                f /= m;
+            }
+        }
+        out
+    } else {
+        let k = choose(2 * n);
+        sorted.rotate_left(k % n);
+        if k >= n {
+            sorted.reverse();
+        }
+        sorted
+    }
+}
+
+/// A `std::collections::HashMap` whose traversal order is decided by the choice script
+pub struct HashMap<K, V>(std::collections::HashMap<K, V, RandomState>);
+
+/// A `std::collections::HashSet` whose traversal order is decided by the choice script
+pub struct HashSet<K>(std::collections::HashSet<K, RandomState>);
+
+impl<K, V> HashMap<K, V> {
+    pub fn new() -> Self {
+        Self(std::collections::HashMap::new())
+    }
+}
+
+impl<K> HashSet<K> {
+    pub fn new() -> Self {
+        Self(std::collections::HashSet::new())
+    }
+}
+
+impl<K, V> Default for HashMap<K, V> {
+    fn default() -> Self {
+        Self::new()
+    }
+}
+
+impl<K> Default for HashSet<K> {
+    fn default() -> Self {
+        Self::new()
+    }
+}
+
+impl<K, V> Deref for HashMap<K, V> {
+    type Target = std::collections::HashMap<K, V, RandomState>;
+    fn deref(&self) -> &Self::Target {
+        &self.0
+    }
+}
+
+impl<K, V> DerefMut for HashMap<K, V> {
+    fn deref_mut(&mut self) -> &mut Self::Target {
+        &mut self.0
+    }
+}
+
+impl<K> Deref for HashSet<K> {
+    type Target = std::collections::HashSet<K, RandomState>;
+    fn deref(&self) -> &Self::Target {
+        &self.0
+    }
+}
+
+impl<K> DerefMut for HashSet<K> {
+    fn deref_mut(&mut self) -> &mut Self::Target {
+        &mut self.0
+    }
+}
+
+impl<K: Ord + Hash + Eq, V> HashMap<K, V> {
+    pub fn iter(&self) -> std::vec::IntoIter<(&K, &V)> {
+        let mut v: Vec<(&K, &V)> = self.0.iter().collect();
+        v.sort_by(|a, b| a.0.cmp(b.0));
+        permute(v).into_iter()
+    }
+
+    pub fn keys(&self) -> std::vec::IntoIter<&K> {
+        let mut v: Vec<&K> = self.0.keys().collect();
+        v.sort();
+        permute(v).into_iter()
+    }
+
+    pub fn values(&self) -> std::vec::IntoIter<&V> {
+        self.iter().map(|(_, v)| v).collect::<Vec<_>>().into_iter()
+    }
+}
+
+impl<K: Ord + Hash + Eq, V> IntoIterator for HashMap<K, V> {
+    type Item = (K, V);
+    type IntoIter = std::vec::IntoIter<(K, V)>;
+    fn into_iter(self) -> Self::IntoIter {
+        let mut v: Vec<(K, V)> = self.0.into_iter().collect();
+        v.sort_by(|a, b| a.0.cmp(&b.0));
+        permute(v).into_iter()
+    }
+}
+
+impl<'a, K: Ord + Hash + Eq, V> IntoIterator for &'a HashMap<K, V> {
+    type Item = (&'a K, &'a V);
+    type IntoIter = std::vec::IntoIter<(&'a K, &'a V)>;
+    fn into_iter(self) -> Self::IntoIter {
+        self.iter()
+    }
+}
+
+impl<K: Hash + Eq, V> FromIterator<(K, V)> for HashMap<K, V> {
+    fn from_iter<T: IntoIterator<Item = (K, V)>>(iter: T) -> Self {
+        Self(iter.into_iter().collect())
+    }
+}
+
+impl<K: Hash + Eq, V, Q: ?Sized> Index<&Q> for HashMap<K, V>
+where
+    K: std::borrow::Borrow<Q>,
+    Q: Hash + Eq,
+{
+    type Output = V;
+    fn index(&self, key: &Q) -> &V {
+        self.0.get(key).expect("no entry found for key")
+    }
+}
+
+impl<K: Ord + Hash + Eq + Clone> HashSet<K> {
+    pub fn iter(&self) -> std::vec::IntoIter<&K> {
+        let mut v: Vec<&K> = self.0.iter().collect();
+        v.sort();
+        permute(v).into_iter()
+    }
+
+    pub fn retain<F: FnMut(&K) -> bool>(&mut self, mut f: F) {
+        let order: Vec<K> = self.iter().cloned().collect();
+        for k in order {
+            if !f(&k) {
+                self.0.remove(&k);
+            }
+        }
+    }
+}
+
+impl<K: Ord + Hash + Eq> IntoIterator for HashSet<K> {
+    type Item = K;
+    type IntoIter = std::vec::IntoIter<K>;
+    fn into_iter(self) -> Self::IntoIter {
+        let mut v: Vec<K> = self.0.into_iter().collect();
+        v.sort();
+        permute(v).into_iter()
+    }
+}
+
+impl<'a, K: Ord + Hash + Eq + Clone> IntoIterator for &'a HashSet<K> {
+    type Item = &'a K;
+    type IntoIter = std::vec::IntoIter<&'a K>;
+    fn into_iter(self) -> Self::IntoIter {
+        self.iter()
+    }
+}
+
+impl<K: Hash + Eq> FromIterator<K> for HashSet<K> {
+    fn from_iter<T: IntoIterator<Item = K>>(iter: T) -> Self {
+        Self(iter.into_iter().collect())
+    }
+}
+
+/// Stand-in for the `rand` crate root inside hooked modules: identical to `rand` unless a script is
+/// active, in which case `random::<f64>()` and the generator returned by `rng()` are answered by
+/// the explorer from finite alphabets
+pub mod rand_shim {
+    pub use ::rand::*;
+
+    /// The unit-interval values a scripted `random::<f64>()` can take
+    pub const ALPHABET: [f64; 6] = [0.0, 1e-9, 0.25, 0.5, 0.75, 1.0 - 1e-9];
+
+    /// The number of evenly spread raw values a scripted generator can return per draw
+    pub const RAW_ARITY: usize = 8;
+
+    pub fn random<T: FromUnit>() -> T {
+        T::from_unit()
+    }
+
+    pub trait FromUnit {
+        fn from_unit() -> Self;
+    }
+
+    impl FromUnit for f64 {
+        fn from_unit() -> f64 {
+            if super::script_active() {
+                ALPHABET[super::choose(ALPHABET.len())]
+            } else {
+                ::rand::random::<f64>()
+            }
+        }
+    }
+
+    pub struct ShimRng(::rand::rngs::ThreadRng);
+
+    pub fn rng() -> ShimRng {
+        ShimRng(::rand::rng())
+    }
+
+    impl ::rand::RngCore for ShimRng {
+        fn next_u32(&mut self) -> u32 {
+            if super::script_active() {
+                (super::choose(RAW_ARITY) as u32) * (u32::MAX / RAW_ARITY as u32)
+            } else {
+                self.0.next_u32()
+            }
+        }
+
+        fn next_u64(&mut self) -> u64 {
+            if super::script_active() {
+                (super::choose(RAW_ARITY) as u64) * (u64::MAX / RAW_ARITY as u64)
+            } else {
+                self.0.next_u64()
+            }
+        }
+
+        fn fill_bytes(&mut self, dst: &mut [u8]) {
+            if super::script_active() {
+                let b = (super::choose(RAW_ARITY) * (256 / RAW_ARITY)) as u8;
+                dst.iter_mut().for_each(|x| *x = b);
+            } else {
+                self.0.fill_bytes(dst)
+            }
+        }
+    }
+}
